@@ -447,6 +447,10 @@ def update_ledger(args):
     for pid in which:
         evp = os.path.join(EVID, pid + '.json')
         ev = json.load(open(evp))
+        if ev.get('tier') != 'quick':
+            # the ledger lists what the QUICK tier discharges (the thorough tier adds obligations the quick tier never generates)
+            print('ledger NOT updated for %s: its last run was a %s run -- run `./check %s quick` first' % (pid, ev.get('tier'), pid))
+            continue
         und = [x for x in ev['coverage'].get('undecided', []) if not x.startswith('ledger obligations no longer generated')]
         bad = [t for t, st in ev['coverage']['obligation_status'].items() if st not in ('discharged', 'known-finding')]
         if und or bad:
